@@ -5,7 +5,7 @@ import re
 
 from ..facts import Broken, strip, const, walk, walk_eval, macro_name
 from ..interp import path
-from .. import cfgq
+from .. import cfgq, loops
 from ..parserai import indirect_target
 from . import c20
 
@@ -186,3 +186,173 @@ def run(prog, chk):
     chk.extra_cov["callback_sites"] = len(sites)
     chk.extra_cov["documented_rows"] = len(doc)
     chk.extra_cov["emitted_codes"] = sorted(emitted)
+
+    r3 = chk.rule("R3-overlength-threshold", "CIF_OVERLENGTH_LINE is reported for more than CIF_LINE_LENGTH characters, terminator "
+                  "excluded: where the column already includes the terminator just scanned, the comparison allows for it", floor=3)
+    if overlength_rule(prog, r3) < 3:
+        raise Broken("fewer than 3 over-length tests found")
+
+    r4 = chk.rule("R4-column-follows-position", "outside the scanning macros, every one-character move of next_char is accompanied in "
+                  "the same block by the same change of the column (or the column is reset before it is used)", floor=4)
+    if column_rule(prog, r4) < 4:
+        raise Broken("fewer than 4 explicit next_char moves found")
+
+
+# moves of next_char whose column accounting happens elsewhere, each with its reason
+COLUMN_EXEMPT = {
+    ("scan_ws", 1): "the for-increment advances over every character; the loop body counts blanks and resets the column at terminators",
+    ("cif_parse_internal", 1): "prologue: the column is reset to 0 before parsing starts",
+}
+SCAN_MACROS = ("NEXT_CHAR", "BACK_UP", "SCAN_UCHAR")
+
+
+def column_rule(prog, rule):
+    """The over-length test (and the column numbers given to the error callback) rest on scanner->column mirroring
+    next_char.  NEXT_CHAR, BACK_UP and SCAN_UCHAR move both; this rule covers the moves written out by hand."""
+    n = 0
+    for m in SCAN_MACROS:
+        body = prog.macro(m, "parser.c")["body"]
+        if "next_char" not in body or "POSN_INCCOLUMN" not in body:
+            rule.violation("parser.c", m, prog.macro(m, "parser.c")["line"], "macro-without-column:%s" % m,
+                           "%s moves next_char but does not call POSN_INCCOLUMN" % m)
+        else:
+            rule.ok("macro:%s" % m, "moves next_char and the column together")
+    for fn in prog.all_functions():
+        if fn.unit != "parser.c":
+            continue
+        # straight-line chains: `do { ... } while (0)` macro bodies end a CFG block without branching
+        dom = loops.dominators(fn)
+
+        def fpreds(blk):
+            """predecessors other than back-edge sources (the dead loop-back block of `do {} while (0)`) and unreachable blocks"""
+            return [q for q in blk.preds if q in dom and blk.id not in dom[q]]
+
+        def chain_of(b0):
+            ch = [b0]
+            cur = b0
+            while True:
+                ss = [x for x in cur.succs if x is not None]
+                if len(ss) != 1 or len(fpreds(fn.blocks[ss[0]])) != 1 or fn.blocks[ss[0]] in ch:
+                    break
+                cur = fn.blocks[ss[0]]
+                ch.append(cur)
+            cur = b0
+            while True:
+                if len(fpreds(cur)) != 1:
+                    break
+                pb = fn.blocks[fpreds(cur)[0]]
+                if len([x for x in pb.succs if x is not None]) != 1 or pb in ch:
+                    break
+                cur = pb
+                ch.insert(0, cur)
+            return ch
+        done = set()
+        for b0 in fn.blocks.values():
+            if b0.id in done:
+                continue
+            chain = chain_of(b0)
+            done |= {x.id for x in chain}
+            adv, col = [], 0
+            for i, r in [(i, r) for bb in chain for (i, r) in enumerate(bb.roots)]:
+                for x in walk_eval(r):
+                    p, k = None, None
+                    if x.get("k") == "asg" and x.get("op") in ("+=", "-=") and const(x.get("rhs")) is not None:
+                        p = path(strip(x.get("lhs")))
+                        k = const(x.get("rhs")) * (1 if x["op"] == "+=" else -1)
+                    elif x.get("k") == "un" and x.get("op") in ("post++", "pre++", "post--", "pre--"):
+                        p = path(strip(x.get("e")))
+                        k = 1 if "++" in x["op"] else -1
+                    if not p:
+                        continue
+                    if p.endswith("next_char") and not any(m in SCAN_MACROS for m in (x.get("ms") or [])):
+                        adv.append((k, x))
+                    elif p.endswith("->column"):
+                        col += k
+            for (k, x) in adv:
+                n += 1
+                key = "%s:L%s:%+d" % (fn.name, x.get("l"), k)
+                if (fn.name, k) in COLUMN_EXEMPT:
+                    rule.ok(key + ":exempt", COLUMN_EXEMPT[(fn.name, k)])
+                elif col == sum(kk for kk, _ in adv):
+                    rule.ok(key, "column changed by the same amount in the block")
+                else:
+                    rule.violation(fn.file, fn.name, x.get("l"), "position-without-column:%s:%+d" % (fn.name, k),
+                                   "next_char is moved by %+d at L%s without the column being changed accordingly: from here to the end "
+                                   "of the line the column is off by one, so the over-length test and reported columns are wrong"
+                                   % (k, x.get("l")))
+    return n
+
+
+def overlength_rule(prog, rule):
+    """Each over-length test compares scanner->column with the limit at the moment a line terminator has been read.  Whether
+    the column then includes the terminator depends on the scan loop: loops that count every character when loading it
+    (SCAN_UCHAR: `c = *next_char; column += 1`) have counted it, loops that count per class have not.  A must-dataflow (gen:
+    `column += k`; kill: the load of the current character) decides which, and the comparison must be
+    `column > LIMIT + 1` / `column - 1 > LIMIT` in the first case and `column > LIMIT` in the second."""
+    limit = prog.macro_int("CIF_LINE_LENGTH")
+    n = 0
+    for fn in prog.all_functions():
+        if fn.unit != "parser.c":
+            continue
+        tests = []
+        for blk in fn.blocks.values():
+            c = cfgq.cond_of(fn, blk)
+            if c is None or len(blk.succs) != 2:
+                continue
+            cs = strip(c)
+            if not isinstance(cs, dict) or cs.get("k") != "bin" or cs.get("op") not in (">", ">="):
+                continue
+            if not any((path(x) or "").endswith("->column") for x in walk(cs.get("lhs"))):
+                continue
+            rv = const(cs.get("rhs"))
+            if rv is None or not (limit - 2 <= rv <= limit + 2):
+                continue
+            # effective threshold: smallest column value for which the test holds, corrected by a constant on the left
+            adj = 0
+            l = strip(cs.get("lhs"))
+            if isinstance(l, dict) and l.get("k") == "bin" and l.get("op") in ("-", "+") and const(l.get("rhs")) is not None:
+                adj = const(l.get("rhs")) if l["op"] == "-" else -const(l.get("rhs"))
+            first_bad = rv + adj + (1 if cs["op"] == ">" else 0)      # smallest column reported
+            tests.append((blk, cs, first_bad))
+        if not tests:
+            continue
+        loads, incs = [], []
+        for (b, i, r, a) in fn.eval_sites():
+            if a.get("k") == "asg" and a.get("op") == "=":
+                rr = strip(a.get("rhs"))
+                if isinstance(rr, dict) and rr.get("k") == "un" and rr.get("op") == "*" and (path(strip(rr.get("e"))) or "").endswith("next_char") \
+                        and (path(strip(a.get("lhs"))) or "").replace("_", "a").isalnum():
+                    loads.append((b.id, i))
+            elif a.get("k") == "decl":
+                for v in a.get("vars", []):
+                    rr = strip(v.get("init")) if v.get("init") is not None else None
+                    if isinstance(rr, dict) and rr.get("k") == "un" and rr.get("op") == "*" and (path(strip(rr.get("e"))) or "").endswith("next_char"):
+                        loads.append((b.id, i))
+            if a.get("k") == "asg" and a.get("op") == "+=" and (path(strip(a.get("lhs"))) or "").endswith("->column"):
+                if const(a.get("rhs")) == 1:
+                    incs.append((b.id, i))
+                elif const(a.get("rhs")) == -1 and "SCAN_UCHAR" not in (a.get("ms") or []):
+                    # un-counts the character just scanned (SCAN_UCHAR's own -1 merges a surrogate pair into one
+                    # character and never concerns a terminator)
+                    loads.append((b.id, i))
+        if not loads:
+            continue
+        mf = cfgq.MustFact(fn, gen_sites=incs, kill_sites=loads, entry_value=False)
+        for (blk, cs, first_bad) in tests:
+            n += 1
+            counted = mf.at(blk.id, 10 ** 6)
+            key = "%s:L%s" % (fn.name, blk.term.get("l"))
+            want = limit + 1 + (1 if counted else 0)       # first column value that means "more than `limit` characters"
+            if counted is None:
+                rule.unproved(key, "test not reachable from a character load")
+            elif first_bad == want:
+                rule.ok(key, "terminator %s; first column reported %d" % ("counted" if counted else "not counted", first_bad))
+            else:
+                rule.violation(fn.file, fn.name, blk.term.get("l"), "overlength-off-by-one:%s" % fn.name,
+                               "the over-length test `%s` fires from column %d on, but in this loop the column %s the terminator just "
+                               "scanned, so a line of exactly %d characters %s" % (
+                                   __import__("cifsa.facts", fromlist=["show"]).show(cs), first_bad,
+                                   "already includes" if counted else "does not include",
+                                   (first_bad - (1 if counted else 0)) if first_bad < want else limit + 1,
+                                   "is reported although the limit is %d" % limit if first_bad < want else "escapes the report"))
+    return n
